@@ -56,6 +56,7 @@ pub struct W {
     pub s_delayed_exec: u32,
     pub s_weak_self: u32,
     pub s_panic: u32,
+    pub s_send_children: u32,
 }
 
 impl W {
@@ -97,6 +98,7 @@ impl W {
             s_delayed_exec: 0,
             s_weak_self: 0,
             s_panic: 0,
+            s_send_children: 0,
         }
     }
 }
@@ -167,6 +169,7 @@ impl<'r> G<'r> {
                 w.s_delayed_exec,
                 w.s_weak_self,
                 w.s_panic,
+                w.s_send_children,
             ];
             match self.rng.weighted(&ws) {
                 0 => {}
@@ -194,7 +197,11 @@ impl<'r> G<'r> {
                     v.push(PStep::DelayedExec(d))
                 }
                 9 => v.push(PStep::WeakSelf),
-                _ => v.push(PStep::Panic),
+                10 => v.push(PStep::Panic),
+                _ => {
+                    let t = self.rng.below(3) as u8;
+                    v.push(PStep::SendToChildren(t))
+                }
             }
         }
         v
@@ -1830,5 +1837,87 @@ pub fn svckeep(rng: &mut Rng) -> Program {
         }
         ops.push(Op::Sleep(g.rng.range(0, 4)));
     }
+    g.prog
+}
+
+/// family "mix": every feature at once - several actors of any entry point / strategy / mailbox / stream, handler
+/// timeouts, timers in started and handlers, slow callbacks, children, and the full op set with cancels, forks and
+/// parked joins.  Its purpose is cross-feature coverage; every oracle must stay silent on it.
+pub fn mix(rng: &mut Rng) -> Program {
+    let mut g = G::new(rng);
+    let nclients = g.rng.range(1, 3) as usize;
+    let nact = g.rng.weighted(&[45, 40, 15]) + 1;
+    for t in 0..nact {
+        let mut a = rand_actor(g.rng, 1 + t as u32, nclients, true);
+        if a.entry.builder() && !a.entry.stream() && g.rng.chance(1, 6) {
+            let tmo = *g.rng.pick(&[2u64, 3, 5, 8]);
+            a.timeout = Some(tmo);
+            a.fail_on_timeout = g.rng.chance(1, 3);
+            a.cfg_order = g.rng.below(4) as u8;
+            // keep tick handlers instantaneous under a timeout unless clearly below saturation
+            a.aux_work = 0;
+        }
+        if g.rng.chance(1, 8) {
+            a.started.push(SStep::Sleep(*g.rng.pick(&[1u64, 2, 5])));
+        }
+        if g.rng.chance(1, 8) {
+            a.stopped.push(SStep::Sleep(*g.rng.pick(&[1u64, 2, 5])));
+        }
+        g.prog.actors.push(a);
+    }
+    g.layout(nclients);
+    // children: actor 2 (and 3) may become a child of actor 1
+    if nact >= 2 && g.rng.chance(1, 3) && g.sk[0][0].hk == Hk::Addr && !g.prog.actors[0].entry.stream() {
+        for ci in 1..nact {
+            if g.sk[0][ci].hk != Hk::Addr || g.rng.chance(1, 3) {
+                continue;
+            }
+            let ty = g.rng.below(3) as u8;
+            let step = if ty == 2 { PStep::AddChild(ci as u16) } else { PStep::RegisterChild(ty, ci as u16) };
+            g.prog.clients[0].push(Op::Call { slot: 0, script: vec![step], cancel: None });
+            if g.rng.chance(1, 2) {
+                g.prog.clients[0].push(Op::Drop { slot: ci as u16 });
+                g.sk[0][ci] = SK { hk: Hk::None, a: usize::MAX };
+            }
+        }
+    }
+    let mut w = W::zero();
+    w.send = 22;
+    w.call = 20;
+    w.ping = 6;
+    w.force_send = 3;
+    w.stop = 7;
+    w.halt = 4;
+    w.consume = 3;
+    w.consume_sync = 2;
+    w.restart = 6;
+    w.clone = 4;
+    w.downgrade = 5;
+    w.upgrade = 5;
+    w.conv = 7;
+    w.detach = 2;
+    w.to_addr = 2;
+    w.drop = 8;
+    w.drop_all = 2;
+    w.await_ = 5;
+    w.join = 4;
+    w.join_park = 2;
+    w.query = 4;
+    w.yield_ = 6;
+    w.sleep = 6;
+    w.fork = 3;
+    w.cancel_pct = 6;
+    w.s_none = 36;
+    w.s_yield = 12;
+    w.s_sleep = 16;
+    w.s_ctx_stop = 5;
+    w.s_ctx_restart = 5;
+    w.s_interval = 4;
+    w.s_interval_with = 3;
+    w.s_delayed_send = 3;
+    w.s_delayed_exec = 2;
+    w.s_weak_self = 2;
+    w.s_send_children = 3;
+    g.gen_clients(&w, &Shape { clients: (1, 3), ops: (2, 9), final_wait_pct: 50 });
     g.prog
 }
